@@ -60,6 +60,13 @@ CHECKS["C12"] = dict(
     note="Trusted: Coq kernel (no axioms), ExtrOcamlBasic + driver (chain bookkeeping, predicates), Go harness (sim node with script-hash index, its own key derivation of the script-hash table); key derivation enters through an injectivity premise; hdkeychain.Child assumed never to return ErrInvalidChild; announcements synchronous. Known findings listing-lost-after-reorged-first-payment, discovery-after-reorged-first-payment; index collision repaired (314e4a7).",
     technique="Coq proof (invariants by induction over histories, scan completeness induction, closed witnesses) + extracted-model differential correspondence on real WalletManager histories",
 )
+CHECKS["C19"] = dict(
+    category="proof",
+    text="PARTIAL. Coq model of the API validation prologues and of the look-up paths that index or dereference (constructTxIn, estimateSignedSize, signWitnessTx, findEligibleUtxos, selectRelatedTx, the current-keystore re-reads, the task queue, asyncImport's record handling, the index sites of filterTx/filterBlock) with explicit Panic outcomes: C19_no_panic for every request in every abstract wallet state for the repaired code, 14 refutation witnesses for the code as found, panic-only-at-unrepaired-sites, follower progress derived from the C01 history theorem. Tied to the code by (1) an inventory of compiler-unproven bounds checks and nil sources regenerated from the source on every run and compared with the pinned one the lemmas were written against, (2) ~4600 API requests in 10 wallet states + 140 deterministic removal-race schedules + 120 chain events with liveness probes per quick run under recover(), compared with the extracted model.",
+    design_ref="DESIGN.md section 5, C19",
+    note="Partial: everything behind the modelled path (fee arithmetic, output construction, signing, serialisation, keystore, database) is an oracle in the proof and covered by exploration only. Trusted: Coq kernel (no axioms), Go compiler's prove pass (bounds-check report), the go/ast translator and the reviewed pinned dispositions, ExtrOcamlBasic + driver, harness with DB gate, verif hooks; mass-core, goleveldb, grpc are environment. 12 panics repaired; known finding index-hint stall.",
+    technique="Coq proof over a model with explicit Panic outcomes + source-derived inventory drift check + exploration of the real API under recover() with extracted-model correspondence",
+)
 NOT_YET = "not claimed yet in this round: model and correspondence under construction (see DESIGN.md section 9 for the order)"
 
 def main():
